@@ -83,6 +83,20 @@ type shPlan struct {
 	Rate         int        `json:"rate"`
 	RateOn       bool       `json:"rateOn"`
 	Paths        [][]shStep `json:"paths"`
+
+	// set by the driver for the directed runs against the limits of limits.go (not from TLC)
+	unit     int                        // bytes per memory unit (0: shUnit)
+	real     *rcmgr.ConcreteLimitConfig // the resource manager is built from this instead of the plan's numbers
+	tick     time.Duration              // duration of one tick (0: shTick)
+	fakeSize []int                      // per protocol: the square width the accessor reports (0: the real one)
+	noModel  bool                       // no model expectation: only the monitors judge
+}
+
+func (p *shPlan) unitBytes() int {
+	if p.unit > 0 {
+		return p.unit
+	}
+	return shUnit
 }
 
 type addrCase struct {
@@ -202,9 +216,10 @@ func (s *streamStub) snapshot() (string, network.StreamErrorCode) {
 // ---- gated store and accessor
 
 type storeAnswer struct {
-	acc eds.AccessorStreamer
-	err error
-	pan bool
+	acc      eds.AccessorStreamer
+	fakeSize int
+	err      error
+	pan      bool
 }
 
 type shGate struct {
@@ -241,14 +256,23 @@ func (g *gatedStore) GetByHeight(_ context.Context, h uint64) (eds.AccessorStrea
 	if a.err != nil {
 		return nil, a.err
 	}
-	return &gatedAccessor{AccessorStreamer: a.acc, g: gt}, nil
+	return &gatedAccessor{AccessorStreamer: a.acc, g: gt, fakeSize: a.fakeSize}, nil
 }
 
 func (g *gatedStore) HasByHeight(context.Context, uint64) (bool, error) { return true, nil }
 
 type gatedAccessor struct {
 	eds.AccessorStreamer
-	g *shGate
+	g        *shGate
+	fakeSize int
+}
+
+// Size is what ResponseSize (hence the reservation) is computed from.
+func (a *gatedAccessor) Size(ctx context.Context) (int, error) {
+	if a.fakeSize > 0 {
+		return a.fakeSize, nil
+	}
+	return a.AccessorStreamer.Size(ctx)
 }
 
 func (a *gatedAccessor) wait() error {
@@ -317,9 +341,9 @@ func newShRig(p *shPlan, squares []eds.AccessorStreamer) (*shRig, error) {
 	}
 	svc := shrex.VerifServiceName()
 	cfg.Service[svc] = rcmgr.ResourceLimits{Streams: lim(p.SvcLim), StreamsInbound: lim(p.SvcLim), StreamsOutbound: rcmgr.Unlimited,
-		Memory: rcmgr.LimitVal64(int64(p.SvcMem) * shUnit)}
+		Memory: rcmgr.LimitVal64(int64(p.SvcMem) * int64(p.unitBytes()))}
 	cfg.ServicePeer[svc] = rcmgr.ResourceLimits{Streams: lim(p.SvcPeerLim), StreamsInbound: lim(p.SvcPeerLim), StreamsOutbound: rcmgr.Unlimited,
-		Memory: rcmgr.LimitVal64(int64(p.SvcPeerMem) * shUnit)}
+		Memory: rcmgr.LimitVal64(int64(p.SvcPeerMem) * int64(p.unitBytes()))}
 	for q := 1; q <= len(p.Need); q++ {
 		id := shrex.ProtocolID(shNetwork, shProtoName[q])
 		r.protos[q] = id
@@ -328,7 +352,11 @@ func newShRig(p *shPlan, squares []eds.AccessorStreamer) (*shRig, error) {
 		cfg.ProtocolPeer[id] = rcmgr.ResourceLimits{Streams: lim(p.ProtoPeerLim[q-1]), StreamsInbound: lim(p.ProtoPeerLim[q-1]),
 			StreamsOutbound: rcmgr.Unlimited, Memory: rcmgr.Unlimited64}
 	}
-	m, err := rcmgr.NewResourceManager(rcmgr.NewFixedLimiter(cfg.Build(rcmgr.InfiniteLimits)))
+	concrete := cfg.Build(rcmgr.InfiniteLimits)
+	if p.real != nil {
+		concrete = *p.real
+	}
+	m, err := rcmgr.NewResourceManager(rcmgr.NewFixedLimiter(concrete))
 	if err != nil {
 		return nil, err
 	}
@@ -414,6 +442,11 @@ func requestBytes(q int, height uint64) ([]byte, error) {
 }
 
 func replayShrexPath(rep *vh.Report, p *shPlan, pi int, path []shStep, squares []eds.AccessorStreamer) (conform bool) {
+	unit := p.unitBytes()
+	tick := shTick
+	if p.tick > 0 {
+		tick = p.tick
+	}
 	rig, err := newShRig(p, squares)
 	if err != nil {
 		rep.Inconclusivef("cannot build the shrex rig: %v", err)
@@ -432,10 +465,13 @@ func replayShrexPath(rep *vh.Report, p *shPlan, pi int, path []shStep, squares [
 				"svcLim": p.SvcLim, "svcPeerLim": p.SvcPeerLim, "svcMem": p.SvcMem, "svcPeerMem": p.SvcPeerMem,
 				"burst": p.Burst, "rate": p.Rate}}
 	}
+	diverged := false // the real code left the model's behaviour: the rest of the path is judged by the monitors only
 	drift := func(i int, f string, a ...any) {
-		conform = false
-		rep.Inconclusivef("conformance drift (model and code differ, no stated property is violated): %s path %d step %d (%+v): %s",
-			p.Name, pi, i, path[i].L, fmt.Sprintf(f, a...))
+		if !diverged {
+			rep.Inconclusivef("conformance drift (model and code differ, no stated property is violated): %s path %d step %d (%+v): %s",
+				p.Name, pi, i, path[i].L, fmt.Sprintf(f, a...))
+		}
+		conform, diverged = false, true
 	}
 	defer func() {
 		for _, g := range live {
@@ -457,12 +493,19 @@ func replayShrexPath(rep *vh.Report, p *shPlan, pi int, path []shStep, squares [
 
 	for i, st := range path {
 		rep.Count("shrex_steps", 1)
+		if diverged && st.L.Op == "open" && live[st.L.S] != nil {
+			return // the model reuses an identity that is still alive in the real run
+		}
+		if (p.noModel || diverged) && st.L.Op != "tick" && st.L.Op != "open" && live[st.L.S] == nil {
+			rep.Count("shrex_directed_steps_skipped", 1) // the stream was refused earlier in the script
+			continue
+		}
 		got := "-"
 		before := rig.stats()
 		switch st.L.Op {
 		case "tick":
 			rep.Count("shrex_ticks", 1)
-			time.Sleep(shTick)
+			time.Sleep(tick)
 			for ip, t := range tokens {
 				if t < 1 {
 					refilled[ip] = true
@@ -485,7 +528,7 @@ func replayShrexPath(rep *vh.Report, p *shPlan, pi int, path []shStep, squares [
 					}
 				}
 				if before.proto[st.L.Proto-1] < p.ProtoLim[st.L.Proto-1] && samePeer < p.ProtoPeerLim[st.L.Proto-1] {
-					rep.Violate("X_limits/shrex/protocol/refused-with-room",
+					violate(rep, "X_limits/shrex/protocol/refused-with-room",
 						fmt.Sprintf("stream refused at the protocol scope with %d/%d streams of the protocol: %v",
 							before.proto[st.L.Proto-1], p.ProtoLim[st.L.Proto-1], err), where(i))
 					return false
@@ -546,7 +589,7 @@ func replayShrexPath(rep *vh.Report, p *shPlan, pi int, path []shStep, squares [
 				case state == "reset-code" && code == network.StreamResourceLimitExceeded:
 					got = "refused-service"
 				case state == "open":
-					rep.Violate("X_limits/shrex/stream-left-open/handle", "the handler returned without closing or resetting the stream", where(i))
+					violate(rep, "X_limits/shrex/stream-left-open/handle", "the handler returned without closing or resetting the stream", where(i))
 					return false
 				default:
 					drift(i, "handler returned early with stream %s code %d", state, code)
@@ -564,7 +607,7 @@ func replayShrexPath(rep *vh.Report, p *shPlan, pi int, path []shStep, squares [
 				}
 				rig.store.mu.Unlock()
 				if n != 0 {
-					rep.Violate("X_limits/shrex/refused-stream-reached-store", fmt.Sprintf("stream refused (%s) but the store was asked", got), where(i))
+					violate(rep, "X_limits/shrex/refused-stream-reached-store", fmt.Sprintf("stream refused (%s) but the store was asked", got), where(i))
 					return false
 				}
 			}
@@ -577,7 +620,7 @@ func replayShrexPath(rep *vh.Report, p *shPlan, pi int, path []shStep, squares [
 					}
 				}
 				if before.svc < p.SvcLim && peerSvc < p.SvcPeerLim {
-					rep.Violate("X_limits/shrex/service/refused-with-room",
+					violate(rep, "X_limits/shrex/service/refused-with-room",
 						fmt.Sprintf("SetService refused with %d/%d service streams, %d/%d of the peer", before.svc, p.SvcLim, peerSvc, p.SvcPeerLim), where(i))
 					return false
 				}
@@ -588,12 +631,7 @@ func replayShrexPath(rep *vh.Report, p *shPlan, pi int, path []shStep, squares [
 				switch {
 				case ip == "lo":
 					if !passed {
-						rep.Violate("X_limits/shrex/rate/loopback-limited", "a loopback address was rate limited", where(i))
-						return false
-					}
-				case ip == "none":
-					if passed {
-						rep.Violate("X_limits/shrex/rate/non-ip-admitted", "an address without IP passed the rate limiter", where(i))
+						violate(rep, "X_limits/shrex/rate/loopback-limited", "a loopback address was rate limited", where(i))
 						return false
 					}
 				default:
@@ -602,12 +640,12 @@ func replayShrexPath(rep *vh.Report, p *shPlan, pi int, path []shStep, squares [
 						t = float64(p.Burst)
 					}
 					if passed && t < 1-1e-3 {
-						rep.Violate("X_limits/shrex/rate/over-admission",
+						violate(rep, "X_limits/shrex/rate/over-admission",
 							fmt.Sprintf("address %s passed the rate limit with %.3f tokens (burst %d, %d per tick)", ip, t, p.Burst, p.Rate), where(i))
 						return false
 					}
 					if !passed && t >= 1 {
-						rep.Violate("X_limits/shrex/rate/refused-inside-rate",
+						violate(rep, "X_limits/shrex/rate/refused-inside-rate",
 							fmt.Sprintf("address %s was rate limited with %.3f tokens in its bucket", ip, t), where(i))
 						return false
 					}
@@ -633,13 +671,17 @@ func replayShrexPath(rep *vh.Report, p *shPlan, pi int, path []shStep, squares [
 				delete(live, st.L.S)
 				state, _ := g.stream.snapshot()
 				if state == "open" {
-					rep.Violate("X_limits/shrex/stream-left-open/not-found", "the handler returned without closing or resetting the stream", where(i))
+					violate(rep, "X_limits/shrex/stream-left-open/not-found", "the handler returned without closing or resetting the stream", where(i))
 					return false
 				}
 				got = "closed"
 				break
 			}
-			g.store <- storeAnswer{acc: rig.accs[g.proto]}
+			fs := 0
+			if len(p.fakeSize) >= g.proto {
+				fs = p.fakeSize[g.proto-1]
+			}
+			g.store <- storeAnswer{acc: rig.accs[g.proto], fakeSize: fs}
 			select {
 			case <-g.inReader:
 				got = "reserved"
@@ -650,15 +692,15 @@ func replayShrexPath(rep *vh.Report, p *shPlan, pi int, path []shStep, squares [
 				switch {
 				case state == "reset-code" && code == network.StreamResourceLimitExceeded:
 					got = "refused-memory"
-					need := p.Need[g.proto-1] * shUnit
-					if before.mem+need <= p.SvcMem*shUnit && before.peerMem[g.peer-1]+need <= p.SvcPeerMem*shUnit {
-						rep.Violate("X_limits/shrex/memory/refused-with-room",
+					need := p.Need[g.proto-1] * unit
+					if before.mem+need <= p.SvcMem*unit && before.peerMem[g.peer-1]+need <= p.SvcPeerMem*unit {
+						violate(rep, "X_limits/shrex/memory/refused-with-room",
 							fmt.Sprintf("ReserveMemory(%d) refused with %d/%d service bytes, %d/%d of the peer", need, before.mem,
-								p.SvcMem*shUnit, before.peerMem[g.peer-1], p.SvcPeerMem*shUnit), where(i))
+								p.SvcMem*unit, before.peerMem[g.peer-1], p.SvcPeerMem*unit), where(i))
 						return false
 					}
 				case state == "open":
-					rep.Violate("X_limits/shrex/stream-left-open/reserve", "the handler returned without closing or resetting the stream", where(i))
+					violate(rep, "X_limits/shrex/stream-left-open/reserve", "the handler returned without closing or resetting the stream", where(i))
 					return false
 				default:
 					drift(i, "handler returned before building the response: stream %s code %d", state, code)
@@ -676,7 +718,7 @@ func replayShrexPath(rep *vh.Report, p *shPlan, pi int, path []shStep, squares [
 			delete(live, st.L.S)
 			state, _ := g.stream.snapshot()
 			if state == "open" {
-				rep.Violate("X_limits/shrex/stream-left-open/finish-"+st.L.How, "the handler returned without closing or resetting the stream", where(i))
+				violate(rep, "X_limits/shrex/stream-left-open/finish-"+st.L.How, "the handler returned without closing or resetting the stream", where(i))
 				return false
 			}
 			if (st.L.How == "panicked") != (state == "reset") {
@@ -703,51 +745,54 @@ func replayShrexPath(rep *vh.Report, p *shPlan, pi int, path []shStep, squares [
 				nSvc++
 			}
 			if g.stage == "held" {
-				nHeldMem += p.Need[g.proto-1] * shUnit
-				peerMem[g.peer-1] += p.Need[g.proto-1] * shUnit
+				nHeldMem += p.Need[g.proto-1] * unit
+				peerMem[g.peer-1] += p.Need[g.proto-1] * unit
 			}
 		}
 		// S1: limits
-		if now.svc > p.SvcLim || now.mem > p.SvcMem*shUnit {
-			rep.Violate("X_limits/shrex/service/limit-exceeded", fmt.Sprintf("service scope holds %d streams / %d bytes (limits %d / %d)",
-				now.svc, now.mem, p.SvcLim, p.SvcMem*shUnit), where(i))
+		if now.svc > p.SvcLim || now.mem > p.SvcMem*unit {
+			violate(rep, "X_limits/shrex/service/limit-exceeded", fmt.Sprintf("service scope holds %d streams / %d bytes (limits %d / %d)",
+				now.svc, now.mem, p.SvcLim, p.SvcMem*unit), where(i))
 			return false
 		}
 		for q := range nProto {
 			if now.proto[q] > p.ProtoLim[q] {
-				rep.Violate("X_limits/shrex/protocol/limit-exceeded", fmt.Sprintf("protocol %d holds %d streams (limit %d)", q+1, now.proto[q], p.ProtoLim[q]), where(i))
+				violate(rep, "X_limits/shrex/protocol/limit-exceeded", fmt.Sprintf("protocol %d holds %d streams (limit %d)", q+1, now.proto[q], p.ProtoLim[q]), where(i))
 				return false
 			}
 		}
 		for j := range p.IPs {
-			if now.peerMem[j] > p.SvcPeerMem*shUnit {
-				rep.Violate("X_limits/shrex/service-peer/memory-exceeded", fmt.Sprintf("peer %d holds %d bytes (limit %d)", j+1, now.peerMem[j], p.SvcPeerMem*shUnit), where(i))
+			if now.peerMem[j] > p.SvcPeerMem*unit {
+				violate(rep, "X_limits/shrex/service-peer/memory-exceeded", fmt.Sprintf("peer %d holds %d bytes (limit %d)", j+1, now.peerMem[j], p.SvcPeerMem*unit), where(i))
 				return false
 			}
 		}
 		// S2: every counter is exactly what the live streams account for
 		if now.svc != nSvc || !eqInts(now.proto, nProto, 1) {
-			rep.Violate("X_limits/shrex/stream-count-leak/after-"+st.L.Op+"-"+got,
+			violate(rep, "X_limits/shrex/stream-count-leak/after-"+st.L.Op+"-"+got,
 				fmt.Sprintf("resource manager counts %d service / %v protocol streams, the live streams account for %d / %v",
 					now.svc, now.proto, nSvc, nProto), where(i))
 			return false
 		}
 		if now.mem != nHeldMem || !eqInts(now.peerMem, peerMem, 1) {
-			rep.Violate("X_limits/shrex/memory-leak/after-"+st.L.Op+"-"+got,
+			violate(rep, "X_limits/shrex/memory-leak/after-"+st.L.Op+"-"+got,
 				fmt.Sprintf("resource manager holds %d bytes (per peer %v), the handlers inside the response builder account for %d (%v)",
 					now.mem, now.peerMem, nHeldMem, peerMem), where(i))
 			return false
 		}
 
 		// ---- conformance with the model
+		if p.noModel || diverged {
+			continue
+		}
 		if got != st.O && !(got == "-" && st.O == "-") {
 			drift(i, "model outcome %s, real outcome %s", st.O, got)
-			return
+			continue
 		}
-		if now.svc != st.P.Svc || now.mem != st.P.Mem*shUnit || !eqInts(now.proto, st.P.Proto, 1) || !eqInts(now.peer, st.P.Peer, 1) ||
-			!eqInts(now.peerMem, st.P.PeerMem, shUnit) {
+		if now.svc != st.P.Svc || now.mem != st.P.Mem*unit || !eqInts(now.proto, st.P.Proto, 1) || !eqInts(now.peer, st.P.Peer, 1) ||
+			!eqInts(now.peerMem, st.P.PeerMem, unit) {
 			drift(i, "model %+v, real %+v", st.P, now)
-			return
+			continue
 		}
 	}
 	return conform
@@ -804,5 +849,9 @@ func runShrexPlans(t *testing.T, rep *vh.Report) {
 		if stop {
 			return
 		}
+	}
+	runAddrCases(t, rep, plans.ACases)
+	if nViol.Load() == 0 {
+		runShrexProduction(t, rep, squares)
 	}
 }
